@@ -259,6 +259,7 @@ type protoCase struct {
 	Inbound   bool  `json:"inbound"`
 	AllowSelf bool  `json:"allow_self"`
 	Frames    []int `json:"frames"`
+	Choices   []int `json:"choices,omitempty"` // schedule (empty: canonical)
 }
 
 func (pc protoCase) String() string {
@@ -373,7 +374,18 @@ type protoResult struct {
 }
 
 // runProto executes one case under the scheduler's default schedule.
-func runProto(pc protoCase) (*vsched.Exec, *obs, *obs) {
+func runProto(pc protoCase, prefix ...int) (*vsched.Exec, *obs, *obs) {
+	if pc.Inbound {
+		for _, k := range pc.Frames {
+			if k == fVersionSelf {
+				// the process-wide sentNonces cache holds only the last 50 nonces
+				// (inbound peers add theirs too): make sure a fresh outbound nonce
+				// is in it (harness state, not part of the case)
+				runProto(protoCase{Inbound: false, Frames: []int{fVersion}})
+				break
+			}
+		}
+	}
 	var atEnd, afterDisc obs
 	body := func() {
 		vtime.ResetRegistry()
@@ -434,7 +446,7 @@ func runProto(pc protoCase) (*vsched.Exec, *obs, *obs) {
 		vsched.WaitQuiescent()
 		snapshot(&afterDisc)
 	}
-	x := vsched.RunOnce(nil, 20000, body)
+	x := vsched.RunOnce(prefix, 20000, body)
 	return x, &atEnd, &afterDisc
 }
 
@@ -442,6 +454,56 @@ var lastOutboundNonce uint64 = 424242
 
 func checkProto(pc protoCase) string {
 	x, o, od := runProto(pc)
+	return judgeProto(pc, x, o, od)
+}
+
+// checkProtoSched runs the case under EVERY schedule with at most bound
+// deviations from the canonical one (the handshake itself is explored, not
+// only the default schedule).  Returns the number of schedules and the first
+// violation with its schedule.
+func checkProtoSched(pc protoCase, bound int, stop func() bool) (int, string, []int) {
+	n := 0
+	var viol string
+	var violChoices []int
+	var explore func(prefix []int)
+	explore = func(prefix []int) {
+		if viol != "" || stop() {
+			return
+		}
+		x, o, od := runProto(pc, prefix...)
+		n++
+		if x.Diverged != "" {
+			viol, violChoices = "replay divergence: "+x.Diverged, prefix
+			return
+		}
+		if w := judgeProto(pc, x, o, od); w != "" {
+			viol, violChoices = w, x.Choices()
+			return
+		}
+		for i := len(prefix); i < len(x.Points); i++ {
+			p := x.Points[i]
+			if len(p.Enabled) <= 1 {
+				continue
+			}
+			cost := 1
+			for k := 0; k < i; k++ {
+				if x.Points[k].Choice != 0 {
+					cost++
+				}
+			}
+			if cost > bound {
+				continue
+			}
+			for alt := 1; alt < len(p.Enabled); alt++ {
+				explore(append(append([]int(nil), x.Choices()[:i]...), alt))
+			}
+		}
+	}
+	explore(nil)
+	return n, viol, violChoices
+}
+
+func judgeProto(pc protoCase, x *vsched.Exec, o, od *obs) string {
 	if x.Panic != "" {
 		return "panic: " + firstLine(x.Panic)
 	}
@@ -814,6 +876,10 @@ func lifeCases(thorough bool) []lifeCase {
 // `c18 shard life <index> <thorough>`; prints a JSON shardResult.
 func runShard(args []string, deadline time.Time) {
 	res := shardResult{Outcomes: map[string]int{}, Complete: true}
+	// warm-up: an outbound peer of this process must have sent a version so that
+	// the process-wide sentNonces cache holds a nonce for the inbound
+	// self-connection cases (harness state, not part of any case)
+	runProto(protoCase{Inbound: false, Frames: []int{fVersion}})
 	switch args[0] {
 	case "proto":
 		var i, n, maxLen int
@@ -842,6 +908,39 @@ func runShard(args []string, deadline time.Time) {
 			}
 			if len(res.Samples) < 2 && len(pc.Frames) >= 3 {
 				res.Samples = append(res.Samples, pc.String())
+			}
+		}
+	case "protosched":
+		var i, n, maxLen, bound int
+		fmt.Sscan(args[1], &i)
+		fmt.Sscan(args[2], &n)
+		fmt.Sscan(args[3], &maxLen)
+		fmt.Sscan(args[4], &bound)
+		cases := protoCases(maxLen)
+		for k := i; k < len(cases); k += n {
+			if time.Now().After(deadline) {
+				res.Complete = false
+				break
+			}
+			pc := cases[k]
+			cnt, what, ch := checkProtoSched(pc, bound, func() bool { return time.Now().After(deadline) })
+			res.Evals += cnt
+			res.Outcomes[fmt.Sprintf("schedules=%d", cnt/50*50)]++
+			if what != "" {
+				pc.Choices = ch
+				// replay the schedule twice
+				same := true
+				for t := 0; t < 2; t++ {
+					x, o, od := runProto(pc, ch...)
+					if (judgeProto(pc, x, o, od) == "") != false {
+						same = false
+					}
+				}
+				if !same {
+					res.Violations = append(res.Violations, shardViolation{Key: "nondeterministic", What: "schedule replay gave a different verdict for " + pc.String() + ": " + what, Replay: pc})
+				} else if len(res.Violations) < 10 {
+					res.Violations = append(res.Violations, shardViolation{Key: "protosched/" + classify(what), What: pc.String() + " under a non-canonical schedule: " + what, Replay: pc})
+				}
 			}
 		}
 	case "life":
@@ -966,7 +1065,8 @@ func main() {
 				r.Violation("life/replay", v, lc)
 			}
 		} else if json.Unmarshal(raw, &pc) == nil {
-			if v := checkProto(pc); v != "" {
+			x, o, od := runProto(pc, pc.Choices...)
+			if v := judgeProto(pc, x, o, od); v != "" {
 				r.Violation("proto/replay", v, pc)
 			}
 		}
@@ -986,6 +1086,14 @@ func main() {
 	nProto := 12
 	for i := 0; i < nProto; i++ {
 		jobs = append(jobs, job{[]string{"shard", "proto", fmt.Sprint(i), fmt.Sprint(nProto), fmt.Sprint(maxLen)}})
+	}
+	nPS := 12
+	psLen, psBound := 2, 1
+	if r.Thorough() {
+		psLen, psBound = 2, 2
+	}
+	for i := 0; i < nPS; i++ {
+		jobs = append(jobs, job{[]string{"shard", "protosched", fmt.Sprint(i), fmt.Sprint(nPS), fmt.Sprint(psLen), fmt.Sprint(psBound)}})
 	}
 	lcs := lifeCases(r.Thorough())
 	for i := range lcs {
@@ -1013,7 +1121,7 @@ func main() {
 	}
 	complete := true
 	outcomes := map[string]int{}
-	protoEvals, lifeExecs, points := 0, 0, 0
+	protoEvals, lifeExecs, points, protoSched := 0, 0, 0, 0
 	perCase := map[string]interface{}{}
 	for i, res := range results {
 		if !res.Complete {
@@ -1022,6 +1130,8 @@ func main() {
 		}
 		if jobs[i].args[1] == "proto" {
 			protoEvals += res.Evals
+		} else if jobs[i].args[1] == "protosched" {
+			protoSched += res.Evals
 		} else {
 			lifeExecs += res.Evals
 			var idx int
@@ -1043,8 +1153,9 @@ func main() {
 			r.Violation(v.Key, v.What, v.Replay)
 		}
 	}
-	r.Eval(protoEvals + lifeExecs)
-	r.Trace(protoEvals + lifeExecs)
+	r.Eval(protoEvals + lifeExecs + protoSched)
+	r.Trace(protoEvals + lifeExecs + protoSched)
+	r.Set("protocol_schedules", map[string]interface{}{"max_frames": psLen, "deviation_bound": psBound, "schedules": protoSched})
 	r.State(len(outcomes) + protoEvals)
 	r.Trans(points + protoEvals)
 	r.Set("protocol_sequences", protoEvals)
